@@ -4,6 +4,7 @@ import XmppModel.Lemmas.NegotiateReady
 import XmppModel.Lemmas.NegotiateOnce
 import XmppModel.Lemmas.NegotiateAdv
 import XmppModel.Lemmas.NegotiateReach
+import XmppModel.Lemmas.NegotiateTerm
 import XmppModel.Generated.C01
 /-!
 # C01 — features are negotiated only when allowed, in order, at most once
@@ -245,6 +246,19 @@ theorem C01_voluntary_first (c : Conf) (hpc : c.pc = .cloop false)
        injection h1 with _ _ hreq
        have hm := List.mem_of_find?_eq_some ‹List.find? _ (allowed (candidates c)) = some _›
        exact allowed_mandatory hm hreq)
+
+/-! ### negotiation ends -/
+
+/-- **termination**: for every configuration, callback behaviour, fault pattern, peer script
+and pick script the machine reaches a final control point (`done`, `fail`, `crash`, `stuck`)
+within a number of steps linear in the size of the peer script and of the pick script — the
+"call negotiate until Ready" loop cannot spin on a finite input -/
+theorem C01_terminates (C : List Feature) (O : Oracle) (st0 : St) (script : List Peer)
+    (picks : List FName) :
+    (run C O ((50 + C.length) * scriptSize script + picks.length + (28 + C.length))
+      (init st0 script picks)).pc.final = true := by
+  apply run_final
+  simp [Negotiate.measure, init, pend, localRank]
 
 /-! ### non-vacuity: concrete runs that satisfy the hypotheses of the theorems above -/
 
